@@ -1053,6 +1053,10 @@ def monitors(ctx, exe):
     rc, out, err = vlib.run_impl(exe, lines, timeout=600)
     if rc == 0 and len(out) == len(lines):
         rcb, outb, errb = vlib.run_impl(exe, [busy_line], timeout=300)
+        if rcb == 0 and len(outb) == 1 and ("never" in outb[0] or any(int(it.split(":")[1]) > 3.5 * T * 1000 for it in outb[0].split(",") if it.split(":")[0].isdigit())):
+            # a machine too busy to schedule the sweeper looks the same: once more before it is judged
+            ctx.extra["busy_map_monitor_repeated"] = outb[0][:200]
+            rcb, outb, errb = vlib.run_impl(exe, [busy_line], timeout=300)
         ctx.count(busy_line, kind="sweep-expire-busy-map")
         if rcb != 0 or len(outb) != 1:
             ctx.violation("driver-crash", "monitor driver died: " + errb[-500:], dict(case=busy_line))
@@ -1202,6 +1206,13 @@ def run(ctx):
                                                                      [(300, 30), (200, 20), (400, 60), (1000, 200), (600, 100), (240, 12)])]
         rc, outs, err = vlib.run_impl(texe, hold, args=("-test.run", "TestVerifDriver"), timeout=300)
         outs += ["!died"] * (len(hold) - len(outs))
+        for i, r in enumerate(outs):
+            if r.startswith("open:"):
+                # once more, alone, before it is judged (a sweeper that skips its rounds fails again; a process that was not
+                # scheduled for a few hundred milliseconds does not)
+                rc2, o2, _ = vlib.run_impl(texe, [hold[i]], args=("-test.run", "TestVerifDriver"), timeout=120)
+                if rc2 == 0 and len(o2) == 1:
+                    outs[i] = o2[0]
         for l, r in zip(hold, outs):
             if r == "!timing":
                 ctx.extra["cases_left_out_machine_too_busy"] = ctx.extra.get("cases_left_out_machine_too_busy", 0) + 1
